@@ -147,7 +147,8 @@ def make_doc(kind, seed, nops):
     for i in range(nops):
         try:
             d = editgen.apply(doc, seed, i, gen)
-        except Exception:
+        except Exception as e:
+            core.note_skip('c03:edit', e)
             return None, hist
         if d:
             hist.append(d)
@@ -237,7 +238,8 @@ def check_unmodelled(rng, kind):
         return None
     try:
         doc = collada.Collada(io.BytesIO(data))
-    except Exception:
+    except Exception as e:
+        core.note_skip('c03:unmodelled-load', e)
         return None
     out = wbytes(doc)
     root = ET.fromstring(out)
